@@ -12,6 +12,7 @@ mod caches;
 mod checks;
 mod edit;
 mod shared;
+mod tcp;
 
 use art::Art;
 use checks::*;
@@ -783,6 +784,16 @@ fn main() {
     });
     ck.extra("v1_responses", serde_json::json!(resps.iter().map(|(c, r)| (c.clone(), r.len())).collect::<Vec<_>>()));
     if !resps.is_empty() || ck.is_replay() {
+        let rt = resps.clone();
+        ck.run(
+            Section::enumerate(
+                "v1-over-tcp",
+                "versions / cdns / official-shape responses and versions padded to 8192 and 16384 protected bytes, intact and with one hex digit altered, sent by a loopback server in one piece / cut in front of the Checksum line / one byte into it / in the middle / in front of the closing delimiter line (60 ms pause): RibbitClient::query reads the intact one and refuses the altered one".to_string(),
+                move || Box::new(tcp::cases(&rt).into_iter()),
+                tcp::check,
+            )
+            .shards(16),
+        );
         let r1 = resps.clone();
         ck.run(
             Section::enumerate(
